@@ -22,6 +22,12 @@ type cliOptRec struct {
 	V string `json:"v"`
 }
 
+type modeScn struct {
+	Args   []cliOptRec `json:"args"`
+	InRepo bool        `json:"inrepo"`
+	Kind   string      `json:"kind"`
+}
+
 type cliScn struct {
 	Args []cliOptRec `json:"args"`
 	Cfg  struct {
@@ -130,10 +136,21 @@ func checkC14(c *Ctx) {
 		maxArgs = 3
 	}
 	var scns []cliScn
+	var modes []modeScn
 	var mu sync.Mutex
 	res, err := tlcrun.Run(tlcrun.Job{Module: "CliMC", Timeout: 30 * time.Minute,
-		Cfg: fmt.Sprintf("SPECIFICATION Spec\nCONSTANTS\n  MaxArgs = %d\n  DefaultProgress = TRUE\n  Export = TRUE\nINVARIANTS Laws ExportInv\nCHECK_DEADLOCK FALSE\n", maxArgs),
+		Cfg: fmt.Sprintf("SPECIFICATION Spec\nCONSTANTS\n  MaxArgs = %d\n  DefaultProgress = TRUE\n  Export = TRUE\nINVARIANTS Laws ExportInv ModeExportInv\nCHECK_DEADLOCK FALSE\n", maxArgs),
 		OnLine: func(tag, payload string) {
+			if tag == "MODE" {
+				var m modeScn
+				if err := json.Unmarshal([]byte(payload), &m); err != nil {
+					Infra("bad MODE: %v", err)
+				}
+				mu.Lock()
+				modes = append(modes, m)
+				mu.Unlock()
+				return
+			}
 			if tag != "SCN" {
 				return
 			}
@@ -216,6 +233,52 @@ func checkC14(c *Ctx) {
 	c.mu.Unlock()
 	c.Note("%d scenarios from TLC run as (gitconfig, args) and as canonical command line on the real binary", len(scns))
 
+	// --help / --version short-circuits and unknown options, inside and outside a repository
+	outside, _ := os.MkdirTemp(c.Scratch, "norepo-")
+	for _, m := range modes {
+		var args []string
+		for _, a := range m.Args {
+			switch a.O {
+			case "help":
+				args = append(args, "--help")
+			case "version":
+				args = append(args, "--version")
+			case "bogus":
+				args = append(args, "--no-such-option")
+			default:
+				args = append(args, renderOpt(a))
+			}
+		}
+		wd := repoDir
+		env2 := []string(nil)
+		if !m.InRepo {
+			wd = outside
+			env2 = []string{"GIT_CEILING_DIRECTORIES=" + filepath.Dir(outside)}
+		}
+		r := env.bin.Run(run.Opt{Dir: wd, Args: append([]string{"--no-progress"}, args...), Env: env2, Home: dir, Timeout: 60 * time.Second})
+		c.CountEval(1)
+		c.Distinct(fmt.Sprint("mode", args, m.InRepo))
+		out := string(r.Stdout)
+		var got string
+		switch {
+		case r.Exit != 0 && out == "":
+			got = "error"
+		case r.Exit == 0 && strings.HasPrefix(out, "usage: git-sizer"):
+			got = "usage"
+		case r.Exit == 0 && strings.HasPrefix(out, "git-sizer ") && strings.Count(out, "\n") == 1:
+			got = "version"
+		case r.Exit == 0:
+			got = "scan"
+		default:
+			got = "output_and_failure"
+		}
+		if got != m.Kind {
+			c.AddViolation(Violation{Predicate: "run_kind:" + m.Kind + "_expected_" + got + "_observed", Spec: "Cli!RunKind", Kind: "cli14mode",
+				Input: map[string]interface{}{"args": args, "inrepo": m.InRepo, "kind": m.Kind}, Observed: map[string]interface{}{"exit": r.Exit, "stdout": tail(out, 3), "stderr": tail(string(r.Stderr), 3)}})
+		}
+	}
+	c.Note("%d help/version/unknown-option scenarios (inside and outside a repository) compared with Cli!RunKind", len(modes))
+
 	// documented equivalent spellings
 	eq := [][2][]string{
 		{{"--verbose"}, {"--threshold=0"}},
@@ -284,4 +347,43 @@ func init() {
 	checks["C14"] = checkC14
 	replays["cli14"] = replayC14
 	replays["cli14eq"] = replayC14
+	replays["cli14mode"] = func(c *Ctx, raw json.RawMessage) bool {
+		var rp struct {
+			Input struct {
+				Args   []string `json:"args"`
+				InRepo bool     `json:"inrepo"`
+				Kind   string   `json:"kind"`
+			} `json:"input"`
+		}
+		json.Unmarshal(raw, &rp)
+		sub := &Ctx{Prop: c.Prop}
+		sub.Ev.DistinctNT = map[string]bool{}
+		sub.Ev.Extra = map[string]interface{}{}
+		sub.Scratch, _ = mkScratch(c.Scratch)
+		env := newScanEnv(sub, true, false)
+		dir, _ := os.MkdirTemp(sub.Scratch, "c14-")
+		wd := filepath.Join(dir, "r")
+		sc := c14Fixture()
+		if _, err := materialiseCase(wd, &sc); err != nil {
+			Infra("c14 fixture: %v", err)
+		}
+		var env2 []string
+		if !rp.Input.InRepo {
+			wd = filepath.Join(dir, "empty")
+			os.MkdirAll(wd, 0o755)
+			env2 = []string{"GIT_CEILING_DIRECTORIES=" + dir}
+		}
+		r := env.bin.Run(run.Opt{Dir: wd, Args: append([]string{"--no-progress"}, rp.Input.Args...), Env: env2, Home: dir})
+		out := string(r.Stdout)
+		switch rp.Input.Kind {
+		case "error":
+			return !(r.Exit != 0 && out == "")
+		case "usage":
+			return !(r.Exit == 0 && strings.HasPrefix(out, "usage: git-sizer"))
+		case "version":
+			return !(r.Exit == 0 && strings.HasPrefix(out, "git-sizer "))
+		default:
+			return r.Exit != 0
+		}
+	}
 }
